@@ -55,10 +55,16 @@ const envGiveUp = "~env:caller-gives-up:"
 type schedPolicy struct {
 	FastNotify bool     `json:"fast_notify,omitempty"`
 	SlowRPC    []string `json:"slow_rpc,omitempty"`
+	// EagerSpawn lets a goroutine that has just been started run before its parent continues (the default lets the
+	// parent run on until it blocks or ends)
+	EagerSpawn bool `json:"eager_spawn,omitempty"`
 }
 
 func (p schedPolicy) class(name, label string) int {
 	if p.FastNotify && strings.HasPrefix(name, "deliver:") {
+		return 0
+	}
+	if p.EagerSpawn && strings.HasPrefix(label, "go:") {
 		return 0
 	}
 	for _, c := range p.SlowRPC {
